@@ -152,9 +152,31 @@ EXTRA = {
  "C19": ("; queue capacity equals the ...QLen field wherever a queue is built, queue-swap wake-up, refused Device starts no forwarder", ""),
  "C20": ("; byte (not code-point) iteration, one record per message (must-pass Flush), non-nil empty data", ""),
 }
+# round-4 additions: obligations imported from the rule set of the property that anchors a shared mechanism (tool/an/scope.go)
+IMPORTS = {
+ "C01": "receive limit read per accepted connection (from C16); stream single-reader rule (handshake and Recv read one source)",
+ "C02": "guarded-by (E3) of core attach/detach and PAIR/PUSH state (from C11), send-contract and ownership (from C17), attach/detach exactly once (from C13)",
+ "C03": "request-state transitions and pipe-loss decision (from C04), guarded-by (from C11)",
+ "C04": "exact comparison of RemovePipe's resend/cancel decision with its specification over a finite domain; queued-flag/sendQ pairing on every path; id-table writers (from C03), guarded-by (from C11)",
+ "C05": "id-allocator freshness (counter advanced before an id is returned), guarded-by (from C11), ownership (from C17)",
+ "C06": "queue/recorded-length agreement and inheritance (from C19), guarded-by (from C11)",
+ "C07": "queue direction = option direction and inheritance (from C19), guarded-by (from C11)",
+ "C08": "allocator never yields 0 (from C13), guarded-by (from C11)",
+ "C09": "STAR forwards private copies with intact hop header (from C08)",
+ "C10": "own-closed-observed (every SendMsg/RecvMsg of an object with its own closed flag tests it), capacity>=1 where a goroutine re-fills under the lock (from C19)",
+ "C11": "message ownership, send-contract, fresh backing per message (from C17)",
+ "C12": "queue/recorded-length agreement (from C19), back-off and redial-after-loss (from C14)",
+ "C13": "pipe listed before it can be attached; ErrClosed-only-for-own-closed-state and endpoint-usable (from C12), handshake validation (from C16)",
+ "C14": "dialer registration atomic with the socket's closed state (from C10: NewDialer closed path, E3b)",
+ "C16": "channel typestate E10a/E10b — no send can reach a channel a concurrent close may have closed (from C11), websocket sub-protocol match exact (from C15)",
+ "C18": "context inherits each deadline from the socket's same deadline (from C19)",
+ "C19": "MaxReconnectTime 0 disables back-off, otherwise caps it (from C14)",
+ "C20": "main exits non-zero on every path after a failed Run (must-pass); send-interval sentinel tested as < 0",
+}
 for k, (t, x) in EXTRA.items():
     tech, text, note, ref = CLAIMED[k]
-    CLAIMED[k] = (tech + t, text + x, note, ref)
+    imp = IMPORTS.get(k)
+    CLAIMED[k] = (tech + t + ("; shared mechanisms decided where they are anchored and imported: " + imp if imp else ""), text + x, note, ref)
 
 NOT_YET = "check not built yet (work in progress; planned static rules in DESIGN.md section 4)"
 NA = {}
